@@ -25,6 +25,7 @@ import (
 	"github.com/buildbarn/bb-remote-execution/pkg/cas"
 	"github.com/buildbarn/bb-remote-execution/pkg/verifsim/simsync"
 	"github.com/buildbarn/bb-storage/pkg/digest"
+	"github.com/buildbarn/bb-storage/pkg/eviction"
 	"github.com/buildbarn/bb-storage/pkg/filesystem"
 	"github.com/buildbarn/bb-storage/pkg/filesystem/path"
 	"golang.org/x/sync/semaphore"
@@ -50,12 +51,23 @@ type memNode struct {
 	data     []byte
 	exec     bool
 	target   string
+	// writable: the permission bits allow writing (honoured by the opens
+	// of this fake). nlink: number of directory entries of a file.
+	writable bool
+	nlink    int
+}
+
+// memObserver is told about the events of the hard-link cache.
+type memObserver interface {
+	observe(event string)
 }
 
 type memFS struct {
-	mu      sync.Mutex
+	mu      *sync.Mutex // shared by all file systems of one world
 	root    *memNode
 	handles int // directory handles opened and not closed
+	cache   bool
+	obs     memObserver
 }
 
 // memDir is a handle to a directory of a memFS.
@@ -66,8 +78,26 @@ type memDir struct {
 	closed bool
 }
 
-func newMemFS() *memFS {
-	return &memFS{root: &memNode{kind: memDirectory, children: map[string]*memNode{}}}
+func newMemFS(mu *sync.Mutex) *memFS {
+	return &memFS{mu: mu, root: &memNode{kind: memDirectory, children: map[string]*memNode{}}}
+}
+
+func (fs *memFS) observe(event string) {
+	if fs.obs != nil {
+		fs.obs.observe(event)
+	}
+}
+
+// asMemDir finds the in-memory directory behind a filesystem.Directory.
+func asMemDir(d filesystem.Directory) *memDir {
+	switch v := d.(type) {
+	case *memDir:
+		return v
+	case *filesystem.ReferenceCountedDirectoryCloser:
+		return asMemDir(v.DirectoryCloser)
+	}
+	unexpectedCall(fmt.Sprintf("a call with a foreign directory of type %T", d))
+	return nil
 }
 
 func (fs *memFS) rootDir(path string) *memDir { return &memDir{fs: fs, node: fs.root, path: path} }
@@ -144,16 +174,33 @@ func (a *memAppender) Write(p []byte) (int, error) {
 func (a *memAppender) Close() error { return nil }
 func (a *memAppender) Sync() error  { return nil }
 
+var createOwn = filesystem.CreateExcl(0o644)
+
 func (d *memDir) OpenAppend(name path.Component, creationMode filesystem.CreationMode) (filesystem.FileAppender, error) {
-	if creationMode != createPlain && creationMode != createExec {
-		unexpectedCall("OpenAppend with a creation mode other than CreateExcl(0444/0555)")
-	}
 	d.fs.mu.Lock()
 	defer d.fs.mu.Unlock()
-	if _, ok := d.node.children[name.String()]; ok {
+	c, exists := d.node.children[name.String()]
+	if creationMode == filesystem.DontCreate {
+		// An attempt to write to an existing file: the permission bits
+		// decide.
+		switch {
+		case !exists:
+			return nil, syscall.ENOENT
+		case c.kind != memFile:
+			return nil, syscall.EISDIR
+		case !c.writable:
+			return nil, syscall.EACCES
+		}
+		return &memAppender{fs: d.fs, node: c}, nil
+	}
+	if creationMode != createPlain && creationMode != createExec && creationMode != createOwn {
+		unexpectedCall("OpenAppend with an unexpected creation mode")
+	}
+	if exists {
+		d.fs.observe("download-destination-exists")
 		return nil, syscall.EEXIST
 	}
-	n := &memNode{kind: memFile, exec: creationMode == createExec}
+	n := &memNode{kind: memFile, exec: creationMode == createExec, writable: creationMode == createOwn, nlink: 1}
 	d.node.children[name.String()] = n
 	return &memAppender{fs: d.fs, node: n}, nil
 }
@@ -248,6 +295,10 @@ func (d *memDir) Remove(name path.Component) error {
 		return syscall.ENOTEMPTY
 	}
 	delete(d.node.children, name.String())
+	c.nlink--
+	if d.fs.cache {
+		d.fs.observe("hardlink-cache-eviction")
+	}
 	return nil
 }
 
@@ -289,7 +340,33 @@ func (d *memDir) OpenWrite(name path.Component, creationMode filesystem.Creation
 }
 
 func (d *memDir) Link(oldName path.Component, newDirectory filesystem.Directory, newName path.Component) error {
-	unexpectedCall("Link")
+	nd := asMemDir(newDirectory)
+	d.fs.mu.Lock()
+	defer d.fs.mu.Unlock()
+	c, ok := d.node.children[oldName.String()]
+	if !ok {
+		return syscall.ENOENT
+	}
+	if c.kind != memFile {
+		return syscall.EPERM
+	}
+	if _, exists := nd.node.children[newName.String()]; exists {
+		switch {
+		case d.fs.cache:
+			d.fs.observe("hardlink-destination-exists")
+		case nd.fs.cache:
+			d.fs.observe("hardlink-cache-entry-exists")
+		}
+		return syscall.EEXIST
+	}
+	nd.node.children[newName.String()] = c
+	c.nlink++
+	switch {
+	case d.fs.cache:
+		d.fs.observe("hardlink-cache-hit")
+	case nd.fs.cache:
+		d.fs.observe("hardlink-cache-insert")
+	}
 	return nil
 }
 
@@ -337,6 +414,34 @@ func curGoid() int64 {
 	}
 	id, _ := strconv.ParseInt(string(s[:i]), 10, 64)
 	return id
+}
+
+// naiveShared is what the actions of one naive run have in common: the file
+// systems' lock, the hard-link cache and the file fetcher stack.
+type naiveShared struct {
+	w        *c17
+	memMu    sync.Mutex
+	cacheFS  *memFS
+	hardlink bool
+	maxFiles int
+	maxSize  int64
+	plant    bool
+	fetcher  cas.FileFetcher
+
+	gmu  sync.Mutex
+	goNS map[int64]*naiveState
+}
+
+func (nv *naiveShared) observe(event string) { nv.w.k.Probe(event) }
+
+func (nv *naiveShared) stateOfCaller() *naiveState {
+	nv.gmu.Lock()
+	defer nv.gmu.Unlock()
+	ns := nv.goNS[curGoid()]
+	if ns == nil {
+		unexpectedCall("the base file fetcher by a goroutine that did not come through an action's fetcher")
+	}
+	return ns
 }
 
 // naiveState is the per-action state of the naive configuration.
@@ -416,62 +521,86 @@ func (f *adoptingDirectoryFetcher) GetTreeChildDirectory(ctx context.Context, tr
 	return nil, nil
 }
 
-// naiveFileFetcher materialises a blob of the fake CAS as a file, the way
-// BlobAccessFileFetcher does, with fault tickets.
-type naiveFileFetcher struct{ ns *naiveState }
+// adoptingFileFetcher is the file fetcher an action's NaiveBuildDirectory
+// sees. It makes the download goroutine an actor (the real
+// HardlinkingFileFetcher takes simulated mutexes right away) and keeps the
+// books of the attempt.
+type adoptingFileFetcher struct {
+	ns   *naiveState
+	base cas.FileFetcher
+}
 
-func (ff *naiveFileFetcher) GetFile(ctx context.Context, d digest.Digest, directory filesystem.Directory, name path.Component, isExecutable bool) (err error) {
+func (ff *adoptingFileFetcher) GetFile(ctx context.Context, d digest.Digest, directory filesystem.Directory, name path.Component, isExecutable bool) (err error) {
 	ns := ff.ns
 	w := ns.a.w
-	where := "?"
-	if rc, ok := directory.(*filesystem.ReferenceCountedDirectoryCloser); ok {
-		if md, ok := rc.DirectoryCloser.(*memDir); ok {
-			where = md.path
-		}
-	}
-	full := where + "/" + name.String()
+	nv := w.nv
+	full := asMemDir(directory).path + "/" + name.String()
 	x := ""
 	if isExecutable {
 		x = "*"
 	}
 	act := ns.adopt(fmt.Sprintf("get %s %s%s", full, shortDigest(d), x))
-	injected := false
+	gid := curGoid()
+	nv.gmu.Lock()
+	nv.goNS[gid] = ns
+	nv.gmu.Unlock()
 	defer func() {
+		nv.gmu.Lock()
+		delete(nv.goNS, gid)
+		nv.gmu.Unlock()
 		ns.mu.Lock()
 		if err != nil {
 			ns.fetchFails++
-			if injected {
-				ns.injected++
+			if status.Code(err) == codes.Canceled && ctx.Err() != nil {
+				ns.canceled++
 			}
 		}
 		ns.mu.Unlock()
 		w.k.Retire(act)
 	}()
+	// Every download starts at a park point of its own, so that the
+	// goroutine never runs alongside the one that started it.
 	ns.mu.Lock()
 	ns.parkedNow++
 	if ns.parkedNow > ns.parkedMax {
 		ns.parkedMax = ns.parkedNow
 	}
 	ns.mu.Unlock()
-	opt := w.k.SeamW("file-get "+full, 40, w.faultWeight(), "ok", "file-unavailable", "file-not-found", "file-canceled", "file-partial")
+	w.k.Yield("file-fetch " + full)
 	ns.mu.Lock()
 	ns.parkedNow--
 	ns.mu.Unlock()
-	if cerr := ctx.Err(); cerr != nil {
+	return ff.base.GetFile(ctx, d, directory, name, isExecutable)
+}
+
+// naiveFileFetcher materialises a blob of the fake CAS as a file, the way
+// BlobAccessFileFetcher does, with fault tickets. It is the base of the
+// real HardlinkingFileFetcher (or used directly).
+type naiveFileFetcher struct{ nv *naiveShared }
+
+func (ff *naiveFileFetcher) GetFile(ctx context.Context, d digest.Digest, directory filesystem.Directory, name path.Component, isExecutable bool) (err error) {
+	nv := ff.nv
+	w := nv.w
+	ns := nv.stateOfCaller()
+	full := asMemDir(directory).path + "/" + name.String()
+	injected := func() {
 		ns.mu.Lock()
-		ns.canceled++
+		ns.injected++
 		ns.mu.Unlock()
+	}
+	opt := w.k.SeamW("download "+full, 40, w.faultWeight(), "ok", "file-unavailable", "file-not-found", "file-canceled", "file-partial", "file-partial-left-behind")
+	if cerr := ctx.Err(); cerr != nil {
 		return status.FromContextError(cerr).Err()
 	}
 	switch opt {
 	case 1:
-		injected = true
+		injected()
 		return status.Error(codes.Unavailable, "injected file fetch failure")
 	case 2:
-		injected = true
+		injected()
 		return status.Error(codes.NotFound, "injected: blob not found")
 	case 3:
-		injected = true
+		injected()
 		return status.Error(codes.Canceled, "injected: the connection to storage is closing")
 	}
 	data, ok := w.cas.blobs[casKey(d)]
@@ -487,10 +616,12 @@ func (ff *naiveFileFetcher) GetFile(ctx context.Context, d digest.Digest, direct
 		return err
 	}
 	defer f.Close()
-	if opt == 4 {
-		injected = true
+	if opt >= 4 {
+		injected()
 		f.Write(data[:len(data)/2])
-		directory.Remove(name)
+		if opt == 4 {
+			directory.Remove(name)
+		}
 		return status.Error(codes.Unavailable, "injected file fetch failure after a partial write")
 	}
 	if _, err := f.Write(data); err != nil {
@@ -534,48 +665,204 @@ func reachableBroken(d *dagDir) *dagDir {
 	return nil
 }
 
+func (w *c17) smallRoots(limit int) []*dagDir {
+	var small []*dagDir
+	for _, d := range w.g.dirs {
+		if treeSize(d) <= limit {
+			small = append(small, d)
+		}
+	}
+	return small
+}
+
+// setupNaiveShared creates the file fetcher stack all actions of the run use,
+// like the worker threads of one bb_worker do.
+func (w *c17) setupNaiveShared() {
+	t := w.t
+	nv := &naiveShared{w: w, goNS: map[int64]*naiveState{}}
+	w.nv = nv
+	nv.hardlink = t.Bool(2, 3)
+	nv.plant = t.Bool(1, 3)
+	var fetcher cas.FileFetcher = &naiveFileFetcher{nv: nv}
+	if nv.hardlink {
+		nv.cacheFS = newMemFS(&nv.memMu)
+		nv.cacheFS.cache = true
+		nv.cacheFS.obs = nv
+		nv.maxFiles = 1 + t.Choice(3)
+		nv.maxSize = pick(t, []int64{1000, 60, 25})
+		var set eviction.Set[string]
+		if t.Bool(1, 2) {
+			set = eviction.NewLRUSet[string]()
+		} else {
+			set = eviction.NewFIFOSet[string]()
+		}
+		fetcher = cas.NewHardlinkingFileFetcher(fetcher, nv.cacheFS.rootDir("cache"), nv.maxFiles, nv.maxSize, set)
+	}
+	nv.fetcher = fetcher
+	w.r.Logf("naive: hardlinking cache=%v maxFiles=%d maxSize=%d pre-existing destinations=%v", nv.hardlink, nv.maxFiles, nv.maxSize, nv.plant)
+}
+
 func (w *c17) setupNaive(a *action) {
 	t := w.t
+	nv := w.nv
 	// Keep the eagerly materialised trees small.
 	if treeSize(a.rootDag) > 60 {
-		var small []*dagDir
-		for _, d := range w.g.dirs {
-			if treeSize(d) <= 60 {
-				small = append(small, d)
-			}
-		}
+		small := w.smallRoots(60)
 		a.rootDag = small[len(small)-1-t.Choice(min(3, len(small)))]
 	}
-	ns := &naiveState{a: a, fs: newMemFS()}
+	ns := &naiveState{a: a, fs: newMemFS(&nv.memMu)}
+	ns.fs.obs = nv
 	// A download semaphore that can block is only used where no download
 	// can fail: a failing download cancels the group while the walking
 	// goroutine is being woken by the semaphore, and which of the two it
 	// notices first is decided by the Go scheduler, not by the simulator.
 	weight := int64(1000)
-	if w.faultFree && !w.allowBroken {
+	if w.faultFree && !w.allowBroken && !nv.plant {
 		weight = pick(t, []int64{1000, 1, 2})
 	}
 	ns.bd = builder.NewNaiveBuildDirectory(
 		ns.fs.rootDir(a.name),
 		&adoptingDirectoryFetcher{ns: ns, base: w.fetcher},
-		&naiveFileFetcher{ns: ns},
+		&adoptingFileFetcher{ns: ns, base: nv.fetcher},
 		semaphore.NewWeighted(weight),
 		w.cas,
 	)
 	a.naive = ns
-	w.r.Logf("%s: naive build directory, input root dir#%d (%d nodes), download concurrency %d", a.name, a.rootDag.id, treeSize(a.rootDag), weight)
+	w.r.Logf("%s: naive build directory, first input root dir#%d (%d nodes), download concurrency %d", a.name, a.rootDag.id, treeSize(a.rootDag), weight)
+}
+
+// checkCache verifies the hard-link cache: within its limits, and every entry
+// holds exactly the CAS bytes its name stands for, read-only.
+func (w *c17) checkCache(who string) {
+	nv := w.nv
+	if !nv.hardlink {
+		return
+	}
+	nv.memMu.Lock()
+	defer nv.memMu.Unlock()
+	names := make([]string, 0, len(nv.cacheFS.root.children))
+	total := int64(0)
+	for name, n := range nv.cacheFS.root.children {
+		names = append(names, name)
+		total += int64(len(n.data))
+	}
+	sort.Strings(names)
+	if len(names) > nv.maxFiles || (total > nv.maxSize && len(names) > 1) {
+		w.violate("C17/cache-over-limit", fmt.Sprintf("%s: the hard-link cache holds %d files / %d bytes, limits are %d files / %d bytes: %q", who, len(names), total, nv.maxFiles, nv.maxSize, names))
+		return
+	}
+	for _, name := range names {
+		n := nv.cacheFS.root.children[name]
+		if len(name) < 2 {
+			harness("cache entry %q", name)
+		}
+		key, suffix := name[:len(name)-2], name[len(name)-2:]
+		want, ok := w.cas.blobs[key]
+		if !ok || !bytes.Equal(want, n.data) || n.exec != (suffix == "+x") || n.writable {
+			w.violate("C17/cache-content", fmt.Sprintf("%s: cache entry %q holds %q (executable=%v writable=%v), the CAS holds %q for that digest", who, name, n.data, n.exec, n.writable, want))
+			return
+		}
+		w.checks++
+	}
+	if len(names) > 0 {
+		w.k.Probe("hardlink-cache-verified")
+	}
+}
+
+// actionPhase is what a build action may do to its own copy of the input
+// root: attempts to write to input files must fail (their permission bits are
+// all that protects the bytes shared through hard links), replacing an input
+// file by an own file must not touch the shared bytes.
+func (x *walker) actionPhase() {
+	w := x.w
+	t := w.t
+	a := x.a
+	root := a.naive.fs.rootDir(a.name)
+	files := childrenOfKind(a.model, mCAS)
+	if len(files) == 0 {
+		return
+	}
+	name := pick(t, files)
+	n := a.model.children[name]
+	if f, err := root.OpenAppend(comp(name), filesystem.DontCreate); err == nil {
+		f.Write([]byte("scribble"))
+		f.Close()
+		w.violate("C17/input-file-mutable", fmt.Sprintf("%s: the input file %s/%s (%s) could be opened for writing through the build directory; the bytes are shared with the hard-link cache and other actions", x.name, a.name, name, describeNode(n)))
+		return
+	}
+	w.refused++
+	w.k.Probe("input-file-mutation-refused")
+	if t.Bool(1, 2) {
+		// Replace it by a file of the action's own.
+		if err := root.Remove(comp(name)); err != nil {
+			harness("Remove: %v", err)
+		}
+		f, err := root.OpenAppend(comp(name), createOwn)
+		if err != nil {
+			harness("OpenAppend: %v", err)
+		}
+		f.Write([]byte("the action's own output"))
+		f.Close()
+		w.edits++
+		w.k.Probe("edit-replaced-leaf")
+	}
 }
 
 func (x *walker) naiveLoop() {
 	w := x.w
+	t := w.t
+	a := x.a
+	ns := a.naive
+	nv := w.nv
+	rounds := 1 + t.Choice(4)
+	small := w.smallRoots(40)
+	for round := 0; round < rounds && !w.k.Failed(); round++ {
+		if round > 0 {
+			w.k.Yield("next-action")
+			if w.stopping {
+				return
+			}
+			// The next action on this worker thread: another input root
+			// in a clean build directory.
+			if len(small) > 0 {
+				a.rootDag = pick(t, small)
+			}
+			ns.fs.root.children = map[string]*memNode{}
+		}
+		planted := ""
+		if nv.plant && a.rootDag.broken == "" && t.Bool(1, 2) {
+			// Something already sits where an input has to go.
+			var names []string
+			for _, f := range a.rootDag.files {
+				names = append(names, f.name)
+			}
+			if len(names) > 0 {
+				planted = pick(t, names)
+				ns.fs.root.children[planted] = &memNode{kind: memFile, data: []byte("left behind by somebody else"), writable: true, nlink: 1}
+			}
+		}
+		x.logf("round %d: input root dir#%d (%d nodes), pre-existing destination %q", round, a.rootDag.id, treeSize(a.rootDag), planted)
+		if !x.naiveMerge(round, planted) {
+			return
+		}
+		w.checkCache(x.name)
+	}
+}
+
+// naiveMerge materialises the current input root, retrying after failures
+// that are explained by faults or by a pre-existing destination. It returns
+// false if the walker has to stop.
+func (x *walker) naiveMerge(round int, planted string) bool {
+	w := x.w
 	a := x.a
 	ns := a.naive
 	broken := reachableBroken(a.rootDag)
+	faultedAttempts := 0
 	for attempt := 0; ; attempt++ {
 		if attempt >= 40 {
 			harness("naive merge did not succeed in 40 attempts")
 		}
-		if attempt >= 3 {
+		if faultedAttempts >= 3 {
 			// Enough failures: wait until the storage has calmed down.
 			w.k.SeamWhen("merge-retry-when-calm", func() bool { return !w.k.FaultsOn })
 		} else if attempt > 0 {
@@ -587,10 +874,11 @@ func (x *walker) naiveLoop() {
 		}
 		ns.mu.Lock()
 		ns.attempt = attempt
-		ns.prefix = fmt.Sprintf("%s/merge%d/", x.name, attempt)
+		ns.prefix = fmt.Sprintf("%s/r%d.%d/", x.name, round, attempt)
 		ns.names = map[string]int{}
 		ns.live = nil
 		ns.mainGoids = map[int64]bool{}
+		ns.fs.handles = 0
 		ns.fetchFails, ns.injected, ns.dirFaults, ns.canceled, ns.parkedMax, ns.parkedNow = 0, 0, 0, 0, 0, 0
 		ns.mu.Unlock()
 		err := ns.bd.MergeDirectoryContents(bg, w.logger, a.rootDag.digest, nil)
@@ -607,33 +895,46 @@ func (x *walker) naiveLoop() {
 		if err == nil {
 			switch {
 			case broken != nil:
-				w.violate("C17/malformed-accepted", fmt.Sprintf("%s: MergeDirectoryContents (naive) succeeded although dir#%d below the input root cannot be loaded (%s)", x.name, broken.id, broken.broken))
+				w.violate("C17/malformed-accepted", fmt.Sprintf("%s: MergeDirectoryContents (naive) succeeded although dir#%d below the input root cannot be loaded (%s); tree now:\n%s", x.name, broken.id, broken.broken, dumpMem(ns.fs.root, "  ")))
+				return false
 			case ns.fetchFails+ns.dirFaults > 0:
 				w.violate("C17/fetch-failure-swallowed", fmt.Sprintf("%s: MergeDirectoryContents (naive) reported success although %d file download(s) and %d directory fetch(es) failed; tree now:\n%s", x.name, ns.fetchFails, ns.dirFaults, dumpMem(ns.fs.root, "  ")))
-			default:
-				if ns.fs.handles != 0 {
-					w.r.Count("naive_directory_handles_left_open", ns.fs.handles)
-				}
-				a.model = expand(a.rootDag)
-				x.compareNaive()
-				w.k.Probe("naive-merge-ok")
-				if attempt > 0 {
-					w.k.Probe("retry-after-fault-succeeded")
-				}
+				return false
 			}
-			return
+			if ns.fs.handles != 0 {
+				w.r.Count("naive_directory_handles_left_open", ns.fs.handles)
+			}
+			// Also with a pre-existing destination success is fine, as
+			// long as the right contents are there now.
+			a.model = expand(a.rootDag)
+			x.compareNaive()
+			if w.k.Failed() {
+				return false
+			}
+			w.k.Probe("naive-merge-ok")
+			if attempt > 0 {
+				w.k.Probe("retry-after-fault-succeeded")
+			}
+			x.actionPhase()
+			return !w.k.Failed()
 		}
 		switch {
 		case broken != nil:
 			w.brokenSeen++
 			w.k.Probe("unloadable-input-root-rejected")
-			return
+			return true
+		case planted != "":
+			// The attempt started with a foreign file at a destination;
+			// the next one starts in a clean directory.
+			planted = ""
+			w.k.Probe("pre-existing-destination-rejected")
 		case ns.injected+ns.dirFaults > 0:
+			faultedAttempts++
 			w.faultedOps++
 			w.k.Probe("storage-fault-surfaced-as-error")
 		default:
 			w.violate("C17/unexpected-error", fmt.Sprintf("%s: MergeDirectoryContents (naive) of the well-formed dir#%d failed without an injected fault: %v", x.name, a.rootDag.id, err))
-			return
+			return false
 		}
 	}
 }
